@@ -396,8 +396,174 @@ ParseChecks(e) ==
               LET u == UciParse(t) IN (~u.ok => e.res # "ok")
          [] OTHER -> TRUE>>}
 
+(***************************************************************************)
+(* C11 validation, C15 tables, C18 symmetry, C19 capacity, C20 types.      *)
+(***************************************************************************)
+RawValChecks(e) ==
+  LET raw == PosOfJson(e.raw)  S == Conditions(raw)  r == e.res IN
+  {<<"no_panic", ~("panic" \in DOMAIN r)>>,
+   <<"accepts_exactly_the_valid_boards", r.ok <=> (S = {})>>,
+   <<"reported_reason_really_holds", ~r.ok => <<r.err[1], r.err[2]>> \in S>>}
+  \cup (IF r.ok /\ S = {}
+        THEN LET p == PosOfJson(r.pos) IN
+             {<<"result_is_the_normalised_input", p = Normalise(raw)>>,
+              <<"only_rights_and_ep_may_change",
+                  p.cells = raw.cells /\ p.side = raw.side /\ p.hm = raw.hm /\ p.fm = raw.fm
+                  /\ RightsSet(p.castling) \subseteq RightsSet(raw.castling) /\ p.ep \in {raw.ep, -1}>>,
+              <<"validating_again_changes_nothing", r.idempotent /\ r.by_ref /\ Conditions(p) = {} /\ Normalise(p) = p>>,
+              <<"derived_state_from_scratch", r.der.hash = r.der.scratch /\ SetsMatch(r.der, Scratch(p))>>}
+        ELSE {})
+
+MagicChecks(e) ==
+  {<<"slider_attack_set_exact",
+      \A i \in 1..Len(e.entries) :
+         LET occ == SeqToSet(e.entries[i][1]) IN
+         SeqToSet(e.entries[i][2]) = (IF e.piece = "rook" THEN RookAttacks(occ, e.sq) ELSE BishopAttacks(occ, e.sq))>>}
+
+LeaperChecks(e) ==
+  {<<"king_table", \A s \in Sq : SeqToSet(e.king[s + 1]) = KingSet[s]>>,
+   <<"knight_table", \A s \in Sq : SeqToSet(e.knight[s + 1]) = KnightSet[s]>>,
+   <<"white_pawn_table", \A s \in Sq : SeqToSet(e.wpawn[s + 1]) = PawnAttackSet(White, s)>>,
+   <<"black_pawn_table", \A s \in Sq : SeqToSet(e.bpawn[s + 1]) = PawnAttackSet(Black, s)>>}
+
+BetweenChecks(e) ==
+  LET a == e.src IN
+  {<<"is_bishop_valid_exact", \A b \in Sq : e.bishop_valid[b + 1] = SameDiag(a, b)>>,
+   <<"is_rook_valid_exact", \A b \in Sq : e.rook_valid[b + 1] = SameLine(a, b)>>,
+   <<"bishop_strict_exact_on_diagonals", \A b \in Sq : SameDiag(a, b) => SeqToSet(e.bishop_strict[b + 1]) = Between(a, b)>>,
+   <<"rook_strict_exact_on_lines", \A b \in Sq : SameLine(a, b) => SeqToSet(e.rook_strict[b + 1]) = Between(a, b)>>,
+   <<"bishop_strict_empty_off_diagonals", \A b \in Sq : ~SameDiag(a, b) => e.bishop_strict[b + 1] = <<>>>>,
+   <<"rook_strict_empty_off_lines", \A b \in Sq : ~SameLine(a, b) => e.rook_strict[b + 1] = <<>>>>}
+
+SymChecks(e) ==
+  LET pos == PosOfJson(e.a.pos)
+      mirror == e.kind = "mirror"
+      img == IF mirror THEN MirrorPos(pos) ELSE FlopPos(pos)
+      mm(m) == IF mirror THEN MirrorMove(m) ELSE FlopMove(m)
+  IN {<<"input_in_scope", IsValid(pos) /\ (mirror \/ pos.castling = 0)>>,
+      <<"image_is_a_valid_position", ~("rejected" \in DOMAIN e) /\ PosOfJson(e.built) = img /\ IsValid(img)>>}
+     \cup (IF "rejected" \in DOMAIN e THEN {} ELSE
+           {<<"image_unchanged_by_validation", PosOfJson(e.b.pos) = img>>,
+            <<"legal_moves_are_mirror_images", MovesOfJson(e.b.legal) = {mm(m) : m \in MovesOfJson(e.a.legal)}
+                                               /\ Len(e.b.legal) = Len(e.a.legal)>>,
+            <<"check_is_the_same", e.b.check = e.a.check /\ e.b.has_legal = e.a.has_legal>>,
+            <<"outcome_same_with_winner_swapped",
+                e.b.outcome = (IF mirror THEN SwapOutcome(e.a.outcome) ELSE e.a.outcome)>>})
+
+CapChecks(e) ==
+  LET pos == PosOfJson(e.pos)  n == Cardinality(PseudoLegal(pos)) IN
+  IF "panic" \in DOMAIN e THEN {<<"no_panic_or_overflow", FALSE>>} ELSE
+  {<<"input_valid", IsValid(pos)>>,
+   <<"semilegal_count", e.semi_len = n /\ e.list_len = n /\ e.parts_len = n>>,
+   <<"fits_move_list", n <= 256 /\ e.semi_len <= e.capacity /\ e.capacity = 256>>,
+   <<"legal_count", e.legal_len = Cardinality(Legal(pos))>>}
+
+Iota(n) == [i \in 1..n |-> i - 1]
+TIndexChecks(e) ==
+  {<<"checked_constructors_reject_exactly_out_of_range",
+      e.file = Iota(8) /\ e.rank = Iota(8) /\ e.coord = Iota(64) /\ e.piece = Iota(6) /\ e.cell = Iota(13) /\ e.rights = Iota(16)>>}
+
+TValuesChecks(e) ==
+  {<<"files", Len(e.files) = 8 /\ \A i \in 1..8 : LET x == e.files[i] IN
+        x.index = i - 1 /\ x.ch = FileCh(i - 1) /\ x.text = <<FileCh(i - 1)>> /\ x.from_index /\ x.from_char>>,
+   <<"ranks", Len(e.ranks) = 8 /\ \A i \in 1..8 : LET x == e.ranks[i] IN
+        x.index = i - 1 /\ x.ch = RankCh(i - 1) /\ x.text = <<RankCh(i - 1)>> /\ x.from_index /\ x.from_char>>,
+   <<"coords", Len(e.coords) = 64 /\ \A i \in 1..64 : LET x == e.coords[i]  s == i - 1 IN
+        /\ x.index = s /\ x.file = FileOf(s) /\ x.rank = RankOf(s) /\ x.text = SqText(s)
+        /\ x.from_index /\ x.from_parts /\ x.from_str
+        /\ x.flipped_rank = MirrorV(s) /\ x.flipped_file = MirrorH(s) /\ x.diag = DiagIx(s) /\ x.antidiag = AntidiagIx(s)>>,
+   <<"pieces", Len(e.pieces) = 6 /\ \A i \in 1..6 : e.pieces[i].index = i - 1 /\ e.pieces[i].from_index>>,
+   <<"cells", Len(e.cells) = 13 /\ \A i \in 1..13 : LET x == e.cells[i]  c == i - 1 IN
+        /\ x.index = c /\ x.color = ColorOf(c) /\ x.piece = (IF c = 0 THEN -1 ELSE PieceOf(c))
+        /\ x.ch = CellAsciiCh(c) /\ x.utf8 = CellUtf8Ch(c) /\ x.text = <<CellAsciiCh(c)>>
+        /\ x.from_index /\ x.from_char /\ x.from_str /\ x.from_parts /\ x.free = (c = 0) /\ x.occupied = (c # 0)>>,
+   <<"colors", Len(e.colors) = 2 /\ \A i \in 1..2 : LET x == e.colors[i]  c == i - 1 IN
+        x.index = c /\ x.inv = Other(c) /\ x.ch = ColorCh(c) /\ x.text = <<ColorCh(c)>> /\ x.long = ColorLong(c)
+        /\ x.from_char /\ x.from_str>>,
+   <<"rights", Len(e.rights) = 16 /\ \A i \in 1..16 : LET x == e.rights[i]  cr == i - 1
+                                                         bit(k) == (cr \div Pow2(k)) % 2 = 1 IN
+        /\ x.index = cr /\ x.text = RightsText(cr) /\ x.from_str
+        /\ \A k \in 0..3 : x.has[k + 1] = bit(k)
+                             /\ x.with[k + 1] = (IF bit(k) THEN cr ELSE cr + Pow2(k))
+                             /\ x.without[k + 1] = (IF bit(k) THEN cr - Pow2(k) ELSE cr)
+        /\ x.has_color[1] = (bit(0) \/ bit(1)) /\ x.has_color[2] = (bit(2) \/ bit(3))>>}
+
+TCharsChecks(e) ==
+  {<<"from_char_accepts_exactly_the_documented_characters",
+      \A i \in 1..Len(e.rows) : LET r == e.rows[i]  c == r[1] IN
+         r[2] = FileOfChar(c) /\ r[3] = RankOfChar(c) /\ r[4] = CellOfChar(c) /\ r[5] = ColorOfChar(c)>>}
+
+TStringsChecks(e) ==
+  LET A == SetOfSeq(e.alphabet)
+      universe == {<<a>> : a \in A} \cup {<<a, b>> : a \in A, b \in A}
+      accepts(t) == CoordOfText(t) # -1 \/ ColorOfText(t) # -1 \/ CellOfText(t) # -1 \/ RightsOfText(t) # -1
+      AC == {e.accepted[i] : i \in 1..Len(e.accepted)}
+  IN {<<"no_panic", \A x \in AC : ~("panic" \in DOMAIN x)>>,
+      <<"accepted_values", \A x \in AC : ("panic" \in DOMAIN x) \/
+            (x.coord = CoordOfText(x.text) /\ x.color = ColorOfText(x.text)
+             /\ x.cell = CellOfText(x.text) /\ x.rights = RightsOfText(x.text))>>,
+      <<"accepts_exactly_the_documented_spellings",
+            {x.text : x \in {x \in AC : Len(x.text) \in {1, 2}}} = {t \in universe : accepts(t)}>>}
+
+TConstsChecks(e) ==
+  {<<"rank_constants", \A r \in 0..7 : SeqToSet(e.rank[r + 1]) = RankSet(r)>>,
+   <<"file_constants", \A f \in 0..7 : SeqToSet(e.file[f + 1]) = FileSet(f)>>,
+   <<"diag_constants", Len(e.diag) = 15 /\ \A i \in 0..14 : SeqToSet(e.diag[i + 1]) = DiagSet(i)>>,
+   <<"antidiag_constants", Len(e.antidiag) = 15 /\ \A i \in 0..14 : SeqToSet(e.antidiag[i + 1]) = AntidiagSet(i)>>,
+   <<"square_colour_constants", SeqToSet(e.light) = LightSet /\ SeqToSet(e.dark) = DarkSet>>,
+   <<"per_colour_ranks",
+       /\ e.castling_rank = <<HomeRank(0), HomeRank(1)>> /\ e.double_src = <<PawnStartRank(0), PawnStartRank(1)>>
+       /\ e.double_dst = <<DoubleDstRank(0), DoubleDstRank(1)>> /\ e.promote_src = <<PromoSrcRank(0), PromoSrcRank(1)>>
+       /\ e.promote_dst = <<PromoDstRank(0), PromoDstRank(1)>> /\ e.ep_src = <<EpSrcRank(0), EpSrcRank(1)>>
+       /\ e.ep_dst = <<EpDstRank(0), EpDstRank(1)>>>>,
+   <<"pawn_deltas", e.fwd = <<-8, 8>> /\ e.left = <<-9, 7>> /\ e.right = <<-7, 9>>>>}
+
+TGeometryChecks(e) ==
+  {<<"shift", \A s \in Sq : \A df \in -8..8 : \A dr \in -8..8 :
+                e.shifts[s + 1][(df + 8) * 17 + (dr + 8) + 1] = Shift(s, df, dr)>>,
+   <<"add", \A s \in Sq : e.adds[s + 1] = SortedSeq({d \in -70..70 : s + d \in 0..63})>>}
+
+BBBinaryChecks(e) ==
+  {<<"binary_set_algebra",
+      \A i \in 1..Len(e.rows) : LET r == e.rows[i]  x == SeqToSet(r[1])  y == SeqToSet(r[2]) IN
+         /\ SeqToSet(r[3]) = x \cup y /\ SeqToSet(r[4]) = x \cap y /\ SeqToSet(r[5]) = (x \ y) \cup (y \ x)
+         /\ r[6] = r[3] /\ r[7] = r[4] /\ r[8] = r[5] /\ r[9] = (x = y)
+         /\ Ascending(r[3]) /\ Ascending(r[4]) /\ Ascending(r[5])>>}
+
+BBUnaryChecks(e) ==
+  {<<"unary_set_operations",
+      \A i \in 1..Len(e.rows) : LET r == e.rows[i]  x == SeqToSet(r.x)  c == r.c IN
+         /\ SeqToSet(r.not) = Sq \ x /\ r.len = Cardinality(x) /\ r.empty = (x = {}) /\ r.nonempty = (x # {})
+         /\ Ascending(r.iter) /\ SeqToSet(r.iter) = x /\ Len(r.iter) = Cardinality(x)
+         /\ SeqToSet(r.flip_rank) = FlipRankSet(x) /\ SeqToSet(r.flip_file) = FlipFileSet(x)
+         /\ r.has = (c \in x)
+         /\ SeqToSet(r.with) = x \cup {c} /\ SeqToSet(r.without) = x \ {c}
+         /\ r.set = r.with /\ r.unset = r.without /\ r.with2 = r.with /\ r.without2 = r.without
+         /\ SeqToSet(r.shl) = ShlSet(x, r.by) /\ SeqToSet(r.shr) = ShrSet(x, r.by)
+         /\ r.raw_rt /\ r.from_coord = <<c>>>>}
+
+BBDepositChecks(e) ==
+  {<<"deposit_bits",
+      \A i \in 1..Len(e.rows) : LET r == e.rows[i] IN
+         SeqToSet(r[3]) = Deposit(SeqToSet(r[1]), SeqToSet(r[2]))>>}
+
 EventChecks(e) ==
   CASE e.ev = "q" -> QChecks(e)
+    [] e.ev = "rawval" -> RawValChecks(e)
+    [] e.ev = "magic" -> MagicChecks(e)
+    [] e.ev = "leapers" -> LeaperChecks(e)
+    [] e.ev = "between" -> BetweenChecks(e)
+    [] e.ev = "sym" -> SymChecks(e)
+    [] e.ev = "cap" -> CapChecks(e)
+    [] e.ev = "t_index" -> TIndexChecks(e)
+    [] e.ev = "t_values" -> TValuesChecks(e)
+    [] e.ev = "t_chars" -> TCharsChecks(e)
+    [] e.ev = "t_strings" -> TStringsChecks(e)
+    [] e.ev = "t_consts" -> TConstsChecks(e)
+    [] e.ev = "t_geometry" -> TGeometryChecks(e)
+    [] e.ev = "bb_binary" -> BBBinaryChecks(e)
+    [] e.ev = "bb_unary" -> BBUnaryChecks(e)
+    [] e.ev = "bb_deposit" -> BBDepositChecks(e)
     [] e.ev = "fen" -> FenChecks(e)
     [] e.ev = "fenparse" -> FenParseChecks(e)
     [] e.ev = "san" -> SanChecks(e)
